@@ -54,6 +54,11 @@ func (ss *segmentStack) decRef() {
 			ss.lowerLevelSnapshot.Close()
 			ss.lowerLevelSnapshot = nil
 		}
+
+		// The parent stack holds one ref-count on each child stack.
+		for _, childSegStack := range ss.childSegStacks {
+			childSegStack.decRef()
+		}
 	}
 	ss.m.Unlock()
 }
